@@ -15,7 +15,7 @@ ASSUMPTIONS = [
     'AfiSafiType::from is injective (C18), so families are modelled as (AFI, SAFI) pairs',
 ]
 
-UNIVERSE = [(1, 1), (1, 2), (2, 1), (2, 128), (25, 70)]
+UNIVERSE = [(1, 1), (1, 2), (2, 1), (2, 128), (25, 70), (1, 99), (1, 77), (3, 1)]     # the last three have no named AfiSafiType variant (Unsupported(a, s))
 
 
 def dir_spec(m, o):
